@@ -317,6 +317,25 @@ theorem getPoolL_set (l : List Pool) (p : Pool) : getPoolL (setPoolL l p) p.sym 
     · unfold getPoolL at ih ⊢
       simp [hq, List.find?_cons, ih]
 
+theorem getPoolL_cons (x : Pool) (xs : List Pool) (sym : Asset) :
+    getPoolL (x :: xs) sym = if x.sym = sym then some x else getPoolL xs sym := by
+  unfold getPoolL
+  by_cases h : x.sym = sym
+  · simp [List.find?_cons, h]
+  · simp [List.find?_cons, h]
+
+theorem getPoolL_setPoolL_other (l : List Pool) {p : Pool} {sym : Asset} (h : sym ≠ p.sym) :
+    getPoolL (setPoolL l p) sym = getPoolL l sym := by
+  have h1 : ¬ p.sym = sym := fun h' => h h'.symm
+  induction l with
+  | nil => simp [setPoolL, getPoolL, h1]
+  | cons x xs ih =>
+    unfold setPoolL
+    by_cases hx : x.sym = p.sym
+    · have h2 : ¬ x.sym = sym := by rw [hx]; exact h1
+      rw [if_pos hx, getPoolL_cons, getPoolL_cons, if_neg h1, if_neg h2]
+    · rw [if_neg hx, getPoolL_cons, getPoolL_cons, ih]
+
 theorem syms_setPoolL {l : List Pool} {p p0 : Pool} (h : getPoolL l p.sym = some p0) :
     (setPoolL l p).map (fun q => q.sym) = l.map (fun q => q.sym) := by
   induction l with
